@@ -524,6 +524,10 @@ func (s *state) evalCall(node *ast.CallNode) {
 		}
 	}
 
+	// rendering a block param moved the current node into its content; errors
+	// from the callee belong to the call itself.
+	s.at(node)
+
 	callData.enter()
 	state := &state{
 		tmpl:       calledTmpl,
